@@ -176,7 +176,7 @@ package engine
 //@   ensures[C11] allevaluated: err == nil && knowledge != nil ==> (forall k string :: has(knowledge.RuleEntries, k) && !RE(knowledge, k).Deleted ==> $evalStamp[RE(knowledge, k)] == $stamp && $evalCnt[RE(knowledge, k)] == 1)
 //@   ensures[C11] sorted: err == nil ==> (forall a int, b int :: 0 <= a && a < b && b < len(res) ==> res[a].Salience >= res[b].Salience)
 //@   ensures[C11] evalerr: $evalFailed && g.ReturnErrOnFailedRuleEvaluation ==> err != nil && len(res) == 0
-//@   invariant@1[C08] fresh: $i == 0 ==> memoClear(knowledge.WorkingMemory) && noneRetracted(knowledge) && knowledge.DataContext == dataCtx
+//@   invariant@1[C08,C11] fresh: $i == 0 ==> memoClear(knowledge.WorkingMemory) && noneRetracted(knowledge) && knowledge.DataContext == dataCtx
 //@   invariant@1 runnable: forall k int :: 0 <= k && k < len(runnable) ==> runnable[k] != nil && candNow(runnable[k]) && !runnable[k].Deleted
 //@   invariant@1 distinct: forall a int, b int :: 0 <= a && a < b && b < len(runnable) ==> runnable[a] != runnable[b]
 //@   invariant@1 allcands: forall re *ast.RuleEntry :: candNow(re) ==> (exists k int :: 0 <= k && k < len(runnable) && runnable[k] == re)
